@@ -49,5 +49,64 @@ func init() {
 			Hints: map[string]hint{
 				"m.GetSum(base.MetricEventRt)":       {"rt_sum", "int64"},
 				"m.GetSum(base.MetricEventComplete)": {"complete_sum", "int64"}}},
+		// ---- the bucket loops of SlidingWindowMetric (C08): what the accumulator starts from, ONE iteration, and
+		// what is computed from its final value.  ww.Value.Load() and the type assertion enter as parameters
+		// (mb_nil, ok), the bucket's counter reads as `get` / `bucket_min_rt` / `bucket_max_conc`.
+		target{Dir: "core/stat/base", Func: "SlidingWindowMetric.count", Name: "view_count_step", LoopBody: 1,
+			Hints: bucketLoopHints, RangeVars: map[string]string{"ww": "*BucketWrap"}},
+		target{Dir: "core/stat/base", Func: "SlidingWindowMetric.count", Name: "view_count_frame", LoopFrame: 1,
+			Hints: bucketLoopHints},
+		target{Dir: "core/stat/base", Func: "SlidingWindowMetric.GetMaxOfSingleBucket", Name: "view_maxOfSingleBucket_step", LoopBody: 1,
+			Hints: bucketLoopHints, RangeVars: map[string]string{"w": "*BucketWrap"}},
+		target{Dir: "core/stat/base", Func: "SlidingWindowMetric.GetMaxOfSingleBucket", Name: "view_maxOfSingleBucket_frame", LoopFrame: 1,
+			Hints: bucketLoopHints},
+		target{Dir: "core/stat/base", Func: "SlidingWindowMetric.MinRT", Name: "view_MinRT_step", LoopBody: 1,
+			Hints: bucketLoopHints, RangeVars: map[string]string{"w": "*BucketWrap"}},
+		target{Dir: "core/stat/base", Func: "SlidingWindowMetric.MinRT", Name: "view_MinRT_frame", LoopFrame: 1,
+			Hints: bucketLoopHints},
+		target{Dir: "core/stat/base", Func: "SlidingWindowMetric.MaxConcurrency", Name: "view_MaxConcurrency_step", LoopBody: 1,
+			Hints: bucketLoopHints, RangeVars: map[string]string{"w": "*BucketWrap"}},
+		target{Dir: "core/stat/base", Func: "SlidingWindowMetric.MaxConcurrency", Name: "view_MaxConcurrency_frame", LoopFrame: 1,
+			Hints: bucketLoopHints},
+		// ---- C09: LeapArray.currentBucketOfTime: the prologue (now <= 0, index, bucket start) and ONE iteration of the
+		// spin loop.  The slot pointer load enters as old_nil, the (up to three) BucketStart loads of the if-chain as
+		// ws_1 ws_2 ws_3, TryLock's / compareAndSet's outcome as lock_ok / cas_ok; trace: 5 array.get [idx], 1 TryLock, 2 ResetBucketTo
+		// [start], 3 Unlock, 4 compareAndSet.  Result: LReturn (1 = a bucket | 0 = nil, 0 = no error | 1) | LContinue.
+		target{Dir: "core/stat/base", Func: "LeapArray.currentBucketOfTime", Name: "leapArray_currentBucketOfTime_step", LoopBody: 1,
+			Hints: map[string]hint{
+				"la.array.length":                     {"array_length", "int"},
+				"atomic.LoadUint64(&old.BucketStart)": {"ws", "uint64"},
+				"&BucketWrap{}":                       {"", "opaque"}},
+			SeqHints: map[string]bool{"atomic.LoadUint64(&old.BucketStart)": true},
+			Inline:   []string{"LeapArray.calculateTimeIdx"},
+			Calls:    map[string]string{"calculateStartTime": "calculateStartTime"},
+			Acts: map[string]act{
+				"la.array.get":           {Tag: 5, Keep: []int{0}, Ret: hint{"", "opaque"}},
+				"la.updateLock.TryLock":  {Tag: 1, Ret: hint{"lock_ok", "bool"}},
+				"bg.ResetBucketTo":       {Tag: 2, Keep: []int{1}},
+				"la.updateLock.Unlock":   {Tag: 3},
+				"la.array.compareAndSet": {Tag: 4, Ret: hint{"cas_ok", "bool"}}},
+			Effects: []string{"newWrap.Value.Store("},
+			NilRes:  []string{"*BucketWrap"}, Errs: map[string]int{"old": 1, "newWrap": 1}},
+		// BucketLeapArray.ResetBucketTo: the ORDER of its two effects (1 = mb.reset(), 2 = store BucketStart [start])
+		target{Dir: "core/stat/base", Func: "BucketLeapArray.ResetBucketTo", Name: "bucketLeapArray_ResetBucketTo",
+			Hints: map[string]hint{"bw.Value.Load().(*MetricBucket)": {"", "opaque"}},
+			Acts: map[string]act{
+				"mb.reset":           {Tag: 1},
+				"atomic.StoreUint64": {Tag: 2, Keep: []int{1}}},
+			NilRes: []string{"*BucketWrap"}, Errs: map[string]int{"bw": 1}},
 	)
+}
+
+// hints shared by the bucket loops of SlidingWindowMetric
+var bucketLoopHints = map[string]hint{
+	"util.CurrentTimeMillis()":   {"now", "uint64"},
+	"m.getSatisfiedBuckets(now)": {"", "opaque"},
+	"ww.Value.Load()":            {"", "opaque"},
+	"w.Value.Load()":             {"", "opaque"},
+	"mb.(*MetricBucket)":         {"", "opaque"},
+	"mb.(*MetricBucket) ok":      {"ok", "bool"},
+	"counter.Get(event)":         {"get", "int64"},
+	"counter.MinRt()":            {"bucket_min_rt", "int64"},
+	"counter.MaxConcurrency()":   {"bucket_max_conc", "int32"},
 }
